@@ -80,7 +80,9 @@ if __name__ == '__main__':
         confirm(sys.argv[2], sys.argv[3])
     elif sys.argv[1] == 'confirm2':
         confirm(sys.argv[2], sys.argv[3], '/tmp/seeds2', 'r2')
-    elif sys.argv[1] == 'confirm3':
+    elif sys.argv[1] == "confirm4":
+        confirm(sys.argv[2], sys.argv[3], "/tmp/seeds4", "r4")
+    elif sys.argv[1] == "confirm3":
         confirm(sys.argv[2], sys.argv[3], '/tmp/seeds3', 'r3')
     else:
         run(sys.argv[2], sys.argv[3:])
